@@ -333,4 +333,70 @@ def step (s : St) : Step → St
 
 def run (s : St) (steps : List Step) : St := steps.foldl step s
 
+/-! ## the bookkeeping invariant (decidable form) and the step guards of the partial theorem -/
+
+/-- decidable form of `BookInv` (Lemmas/CoordBook.lean, `bookInvB_iff`): every running placement has a
+pipeline id and sits on a registered worker; every worker's assigned list is a permutation of the running
+placements on it and its running count is their number -/
+def bookInvB (s : St) : Bool :=
+  (s.placements.all fun r => r.status != .running || (r.hasId && s.workers.any fun w => w.id == r.worker)) &&
+  (s.workers.all fun w => w.assigned.isPerm (s.runningOn w.id) && w.running == w.assigned.length)
+
+/-- guard of a teardown commit: every task matches the running record currently stored under its name,
+and no running record of the group is left uncovered -/
+def tdGuard (g : GId) : St → List (Name × WId) → Bool
+  | s, [] => s.placements.all fun r => r.gid != g || r.status != .running
+  | s, t :: ts =>
+    (match s.getP g t.1 with
+     | some r => decide (r.status = .running) && r.worker == t.2
+     | none => false) && tdGuard g (teardownTask g s t) ts
+
+/-- why a step falls outside the partial theorem (each value is a known finding, by call site) -/
+inductive GuardFail where
+  /-- `register_worker` for an id that still has running placements (or with a non-zero initial count) -/
+  | reregister
+  /-- `heartbeat` reporting a count different from the coordinator's own bookkeeping -/
+  | heartbeatCount
+  /-- `deregister_worker` / end of `drain_worker` while running placements sit on the worker -/
+  | deregisterRunning
+  /-- `commit_deploy_group` with a successful result for a worker that is no longer registered -/
+  | deployWorkerGone
+  /-- `commit_deploy_group` with a reused group id or duplicate replica names (never generated) -/
+  | deployInput
+  /-- `commit_teardown_group` with a plan that no longer matches the placements -/
+  | staleTeardown
+  /-- migration of a placement whose deployment had failed -/
+  | migrateFailedPlacement
+  deriving DecidableEq, Repr
+
+def guardFail (s : St) : Step → Option GuardFail
+  | .register id _ _ r0 _ => if (s.runningOn id).isEmpty && r0 == 0 then none else some .reregister
+  | .heartbeat id n _ =>
+    match s.getW id with
+    | some w => if n == w.assigned.length then none else some .heartbeatCount
+    | none => none
+  | .deregister id => if (s.runningOn id).isEmpty then none else some .deregisterRunning
+  | .sweep _ => none
+  | .markDraining _ => none
+  | .commitDeploy g _ rs =>
+    if !(s.placements.all fun r => r.gid != g) || !decide ((rs.map (·.replica)).Nodup) then some .deployInput
+    else if rs.all fun r => !r.ok || (s.getW r.worker).isSome then none else some .deployWorkerGone
+  | .commitTeardown g ts => if tdGuard g s ts then none else some .staleTeardown
+  | .commitMigrate p ok =>
+    if ok && migCurrent s p then
+      (match s.getP p.gid p.name with
+       | some r => if r.status = .running then none else some .migrateFailedPlacement
+       | none => none)
+    else none
+  | .migrateAtomic g n t ok =>
+    match s.getP g n, s.getW t with
+    | some r, some _ =>
+      if s.hasGroup g && ok then (if r.status = .running then none else some .migrateFailedPlacement) else none
+    | _, _ => none
+
+/-- all steps of a history are inside the guards -/
+def guardedRun : St → List Step → Bool
+  | _, [] => true
+  | s, st :: rest => (guardFail s st).isNone && guardedRun (step s st) rest
+
 end Varpulis.Coord
